@@ -74,7 +74,8 @@ func attrDiff(got, want []pgdoc.VPage) string {
 			continue
 		}
 		g.Rot, w.Rot = 0, 0
-		if g.Sem() == w.Sem() {
+		if g.Sem() == w.Sem() && want[i].Rot%360 <= 0 && got[i].Rot == 0 {
+			// narrow class: a rotation r with r%360 <= 0 (Go remainder) was dropped
 			if res == "" || res == "crop" {
 				res = "rot"
 			}
